@@ -35,6 +35,18 @@ def value_cases():
              [["cast", ["lit", 3.5], "Int64"], ["cast", ["lit", -3.5], "Int64"], ["cast", ["lit", True], "Int64"],
               ["cast", ["lit", 12], ["str", None]], ["cast", ["lit", None], "Int64"]]),
     ]
+    import datetime as dt
+    from common import enc_value as E
+    d, t = col("d"), col("t")
+    D = [None, dt.date(2024, 5, 17), dt.date(1999, 12, 31), dt.date(2000, 2, 29)]
+    Ts = [None, dt.datetime(2024, 5, 17, 13, 45, 1, 5), dt.datetime(1999, 12, 31, 23, 59, 59), dt.datetime(2000, 2, 29, 0, 0, 0)]
+    litd, litt = ["litc", E(dt.date(2024, 5, 17))], ["litc", E(dt.datetime(2024, 5, 17, 13, 45, 1, 5))]
+    out.append(case(table([["d", "Date"], ["t", "Datetime"]], [(E(a), E(b)) for a, b in zip(D, Ts)]),
+                    [["cast", d, "Datetime"], ["cast", t, "Date"], ["cast", ["cast", d, "Datetime"], "Date"],
+                     # constants: the same conversions on literal operands, used as values and inside comparisons
+                     ["cast", litt, "Date"], ["cast", litd, "Datetime"],
+                     ["fn", "equal", [d, ["cast", litt, "Date"]]], ["fn", "equal", [t, ["cast", litd, "Datetime"]]],
+                     ["fn", "less_than", [["cast", t, "Date"], ["cast", litt, "Date"]]]]))
     return out
 
 
